@@ -96,7 +96,7 @@ def render_variant(v):
     if v["extra"]:
         attrs += "    %s\n" % v["extra"]
     if v["kind"] == "unit":
-        body = v["ident"]
+        body = v["ident"] + (" = %d" % v["discr"] if v.get("discr") is not None else "")
     elif v["kind"] == "tuple":
         body = "%s(%s)" % (v["ident"], ", ".join(v["tys"]))
     else:
@@ -115,12 +115,17 @@ def render_value(e, v, inst):
 
 def describe(e):
     parts = []
-    for v in e["variants"]:
+    vs = e["variants"]
+    if len(vs) > 24:
+        return "enum %s { %d variants, %d enabled, discriminants %s }" % (e["name"], len(vs), e["n"], e.get("discr_mode", "implicit"))
+    for v in vs:
         s = v["ident"]
         if v["kind"] == "tuple":
             s += "(%s)" % ",".join(v["tys"])
         elif v["kind"] == "named":
             s += "{%s}" % ",".join(v["tys"])
+        if v.get("discr") is not None:
+            s += "=%d" % v["discr"]
         if v["disabled"]:
             s = "~" + s
         parts.append(s)
@@ -158,9 +163,26 @@ def generate(rng, seed, size):
         enums.append(gen_enum(rng, idx, n, pl, generics, kinds, robust))
         idx += 1
     # a few larger enums
-    for n in ([] if robust else [13, 21, 33, 64][: max(1, target // 24)]):
-        enums.append(gen_enum(rng, idx, n, rng.choice(["none", "random", "alternating"]), "none", ["unit", "tuple"]))
+    # larger enums, including sizes around integer-width boundaries
+    for n in ([] if robust else ([13, 21, 33, 64, 127, 128, 255, 256, 257] if size != "small" else [13, 33])):
+        enums.append(gen_enum(rng, idx, n, rng.choice(["none", "random", "alternating"] if n < 100 else ["none", "random", "middle"]), "none", ["unit", "unit", "tuple"] if n < 100 else ["unit"]))
         idx += 1
+    # explicit discriminants on all-unit enums (iteration order is declaration order, whatever the values)
+    for e in enums:
+        if robust or e["generics"] != "none" or any(v["kind"] != "unit" for v in e["variants"]) or not e["variants"]:
+            continue
+        if rng.random() < 0.5:
+            nv = len(e["variants"])
+            mode = rng.choice(["descending", "shuffled", "gapped"])
+            if mode == "descending":
+                vals = [nv - 1 - i for i in range(nv)]
+            elif mode == "shuffled":
+                vals = list(range(nv)); rng.shuffle(vals)
+            else:
+                vals = sorted(rng.sample(range(0, 10 * nv + 10), nv))
+            for v, d in zip(e["variants"], vals):
+                v["discr"] = d
+            e["discr_mode"] = mode
 
     out = []
     out.append("// @generated by /verif/gen/gen_corpus.py --seed %d (engine c05, size %s). Do not edit.\n" % (seed, size))
